@@ -214,6 +214,11 @@ let respond (line : String.t) : String.t =
     (match gen_main_render (parse_term tdef) (kids (parse_term blocks)) with
      | Some g -> show_term g
      | None -> "(NoGen \"\")")
+  | [ "helpertraits"; tdef; blocks ] ->
+    let kids t = match t with Node (_, ks) -> ks in
+    (match gen_helper_traits_render (parse_term tdef) (kids (parse_term blocks)) with
+     | Some g -> show_term g
+     | None -> "(NoGen \"\")")
   | [ "canon"; b ] -> show_term (canon (parse_term b))
   | [ "ren_by"; orig; canonical ] ->
     (* the resolver alone, driven by the position map read off the rewritten generics list *)
